@@ -546,38 +546,6 @@ Proof.
   intros H. apply selectsb_selects in H. vm_compute in H. discriminate.
 Qed.
 
-(* (c) node sharing: a labels entry WITHOUT includeSelectors rewrites the selector entry that an earlier
-   directive created (the entries created by one pass share one yaml.Node) *)
-Lemma no_selector_change_chain_refuted :
-  exists (d1 d2 : dirs) (x : node) (st1 st2 : rstate),
-    d2 = mkDirs [mkLD [("app", "b")] false false []] [] [] /\
-    apply_chain_al nq default_tc [d1] (x, []) = Ok st1 /\
-    apply_chain_al nq default_tc [d2] st1 = Ok st2 /\
-    sel_of (fst st2) <> sel_of (fst st1).
-Proof.
-  exists (mkDirs [] [("app", "a")] []). eexists.
-  exists (wit_deployment "apps/v1" [] []). eexists. eexists.
-  split; [reflexivity|]. split; [vm_compute; reflexivity|]. split; [vm_compute; reflexivity|].
-  vm_compute. discriminate.
-Qed.
-
-(* the same chain also breaks selector/template agreement when the template label existed before *)
-Lemma own_selector_chain_refuted :
-  exists (d1 d2 : dirs) (x : node) (st1 st2 : rstate),
-    d1 = mkDirs [] [("env", "x")] [] /\ d2 = mkDirs [mkLD [("env", "y")] false false []] [] [] /\
-    selects x x /\
-    apply_chain_al nq default_tc [d1] (x, []) = Ok st1 /\ selects (fst st1) (fst st1) /\
-    apply_chain_al nq default_tc [d2] st1 = Ok st2 /\ ~ selects (fst st2) (fst st2).
-Proof.
-  eexists. eexists. exists (wit_deployment "apps/v1" [] [("env", str "old")]). eexists. eexists.
-  split; [reflexivity|]. split; [reflexivity|].
-  split; [apply selectsb_selects; vm_compute; reflexivity|].
-  split; [vm_compute; reflexivity|].
-  split; [apply selectsb_selects; vm_compute; reflexivity|].
-  split; [vm_compute; reflexivity|].
-  intros H. apply selectsb_selects in H. vm_compute in H. discriminate.
-Qed.
-
 (* ---------- non-vacuity: a concrete workload meets the hypotheses of the theorems ---------- *)
 Example own_selector_nonvacuous :
   let w := wit_deployment "apps/v1" [("app", str "x")] [("app", str "x"); ("tier", str "y")] in
